@@ -215,3 +215,12 @@ class DosIntegralNative:
 
 register(Obligation(name="C05.get_dos.native_integral", prop=PROP, engine="B", bounded=True, run=DosIntegralNative(), functions=["eminus.tools:get_dos"],
                     doc="BOUNDED: the density of states of synthetic spectra integrates to the k-weighted number of states for one and two spin channels"))
+
+
+# writes-frame of eminus.tools (AST; shared rule in contracts/frame_common.py)
+from contracts.frame_common import WritesFrame  # noqa: E402
+
+register(Obligation(name="C05.tools.writes_frame", prop=PROP, engine="Z", run=WritesFrame(("eminus.tools",)), assumes=("cpython",),
+                    functions=["eminus.tools:get_dos", "eminus.tools:get_Efermi", "eminus.tools:get_bandgap", "eminus.tools:check_orthonorm", "eminus.tools:get_tauw", "eminus.tools:get_reduced_gradient"],
+                    doc="frame (writes): no function of eminus.tools (density of states, Fermi level, band gap, orthonormality checks, ...) stores in place into a parameter or a possible "
+                        "view of one: the eigenvalues, fillings and fields of the SCF object they analyse are left as they are"))
